@@ -855,6 +855,13 @@ func (a *Agent) DownloadAdd(FileID int, FilePath string, FileSize int64) error {
 	/* remove null terminator. goland doesn't like it. */
 	DownloadFile = common.StripNull(DownloadFile)
 
+	/* a transfer that is still running must not have its file truncated by another one */
+	for _, d := range a.Downloads {
+		if filepath.Clean(d.LocalFile) == filepath.Clean(DemonDownload+"/"+DownloadFile) {
+			return errors.New("File is already being downloaded: " + d.LocalFile)
+		}
+	}
+
 	download.File, err = os.Create(DemonDownload + "/" + DownloadFile)
 	if err != nil {
 		logger.Error("Failed to create file: " + err.Error())
